@@ -8,3 +8,7 @@ import Rfsm.Model.Legal
 import Rfsm.Audit
 import Rfsm.Proofs.DescriptorLemmas
 import Rfsm.Props.C19
+import Rfsm.Proofs.SetLemmas
+import Rfsm.Proofs.SelectLemmas
+import Rfsm.Proofs.SessLemmas
+import Rfsm.Props.C02
